@@ -712,6 +712,7 @@ impl<M: Manager, W: From<Object<M>>> Pool<M, W> {
             max_size: slots.max_size,
             idle: slots.vec.len(),
             users: self.inner.users.load(Ordering::Relaxed),
+            debt: slots.debt,
         })
     }
 }
@@ -732,6 +733,8 @@ pub struct VerifSnapshot {
     pub idle: usize,
     /// The `users` counter.
     pub users: usize,
+    /// Permits which are still to be withdrawn (`Slots::debt`).
+    pub debt: usize,
 }
 
 struct PoolInner<M: Manager> {
